@@ -1,6 +1,12 @@
 use verif_core::*;
 
+mod chip126x;
+mod chip127x;
+mod doubles;
 mod props;
+mod reg127;
+mod wire126;
+mod world;
 
 fn main() {
     install_panic_hook();
